@@ -467,15 +467,16 @@ struct PairReport {
 
 /// Err((pattern index, message)) if an operand cannot be constructed faithfully (then no pair is evaluated).
 fn pairs<const N: usize>(pats: &[Vec<u64>]) -> Result<PairReport, (usize, String)> {
-    let mut bs: Vec<Bitset<N>> = vec![];
     for (i, w) in pats.iter().enumerate() {
-        bs.push(build_checked::<N>(w).map_err(|m| (i, m))?);
+        build_checked::<N>(w).map_err(|m| (i, m))?;
     }
     let k = pats.len();
     let rows: Vec<RowOut> = (0..k)
         .into_par_iter()
         .map(|i| {
             let mut out = RowOut { evals: 0, overlapping: 0, fails: vec![None; 6], results: HashSet::new() };
+            // operands are rebuilt per row: a Bitset need not be Sync (it may hold interior caches)
+            let bs: Vec<Bitset<N>> = pats.iter().map(|w| build::<N>(w)).collect();
             for j in 0..k {
                 PROGRESS.fetch_add(1, Ordering::Relaxed);
                 let (wa, wb) = (&pats[i], &pats[j]);
